@@ -56,8 +56,8 @@ pub fn find(d: &[u8]) -> Found {
     let mut b = B::new(d);
     let fmt = if d.starts_with(b"MZ") { pe(&mut b); "pe" }
         else if d.starts_with(b"\x7fELF") { elf(&mut b); "elf" }
-        else if d.len() >= 4 && (d[..4] == [0xcf, 0xfa, 0xed, 0xfe] || d[..4] == [0xce, 0xfa, 0xed, 0xfe]) { macho_thin(&mut b, 0); "macho" }
-        else if d.len() >= 8 && d[..4] == [0xca, 0xfe, 0xba, 0xbe] { macho_fat(&mut b); "macho" }
+        else if d.len() >= 4 && (d[..4] == [0xcf, 0xfa, 0xed, 0xfe] || d[..4] == [0xce, 0xfa, 0xed, 0xfe] || d[..4] == [0xfe, 0xed, 0xfa, 0xce] || d[..4] == [0xfe, 0xed, 0xfa, 0xcf]) { macho_thin(&mut b, 0); "macho" }
+        else if d.len() >= 8 && (d[..4] == [0xca, 0xfe, 0xba, 0xbe] || d[..4] == [0xca, 0xfe, 0xba, 0xbf]) { macho_fat(&mut b); "macho" }
         else if d.starts_with(&[0x4c, 0, 0, 0]) { lnk(&mut b); "lnk" }
         else if d.starts_with(b"dex\n") { dex(&mut b); "dex" }
         else if d.starts_with(b"Cr24") { crx(&mut b); zip(&mut b); "crx" }
@@ -246,9 +246,12 @@ fn macho_fat(b: &mut B) {
     for o in offs.into_iter().take(2) { macho_thin(b, o); }
 }
 fn macho_thin(b: &mut B, base: usize) {
-    let magic = match b.r32(base) { Some(m) => m, None => return };
-    if magic != 0xfeedfacf && magic != 0xfeedface { return; }
-    let is64 = magic == 0xfeedfacf;
+    let magic = match rd(b.d, base, 4, false) { Some(m) => m as usize, None => return };
+    // the byte order of a thin file is the one in which its magic reads feedface / feedfacf
+    let thin_be = magic == 0xcefaedfe || magic == 0xcffaedfe;
+    if magic != 0xfeedfacf && magic != 0xfeedface && !thin_be { return; }
+    let is64 = magic == 0xfeedfacf || magic == 0xcffaedfe;
+    b.be = thin_be;
     for (o, n) in [(4usize, "cputype"), (8, "cpusubtype"), (12, "filetype")] { b.push(base + o, 4, &format!("header.{}", n), false); }
     b.hot(base + 16, 4, "header.ncmds"); b.hot(base + 20, 4, "header.sizeofcmds"); b.push(base + 24, 4, "header.flags", false);
     let ncmds = b.r32(base + 16).unwrap_or(0).min(96);
@@ -292,7 +295,7 @@ fn macho_thin(b: &mut B, base: usize) {
                         b.hspan(p + 12 + 8 * k, 8, 4, "codesign.index");
                         if let Some(bo) = b.r32(p + 12 + 8 * k + 4) { b.hspan(p + bo, 8, 4, "codesign.blob.header"); b.hspan(p + bo + 8, 40, 4, "codesign.blob.body"); }
                     }
-                    b.be = false;
+                    b.be = thin_be;
                 }
             }
             0x26 | 0x29 | 0x2b | 0x2e => { if let Some(p) = lo(b, 8) { b.hspan(p, 8, 1, "linkedit_data"); } }
@@ -301,6 +304,7 @@ fn macho_thin(b: &mut B, base: usize) {
         if size < 8 { break; }
         lc = lc.saturating_add(size);
     }
+    b.be = false;
 }
 
 // ---------------------------------------------------------------- LNK
